@@ -125,7 +125,19 @@ def census(chk):
             if target in (PG + '::<S>::from_start_address_unchecked', FR + '::<S>::from_start_address_unchecked') and f['name'] not in PAGE_CONSTRUCTORS:
                 to_audit.setdefault(f['name'], f)
     chk.floor('in-crate new_unsafe call sites', n_calls, 1)
-    for name, f in sorted(to_audit.items()):
+    # a closure that builds an address (`.map(|a| Page { start_address: a, .. })`) is judged through the function it belongs to, whose
+    # interpretation runs it with the values it really receives
+    import re
+    byname = {f['name']: f for f in chk.facts['fns']}
+    resolved = {}
+    for name, f in to_audit.items():
+        base = re.split(r'::\{closure', name)[0]
+        if base != name and base in byname:
+            if base not in CONSTRUCTORS and base not in PAGE_CONSTRUCTORS:
+                resolved.setdefault(base, byname[base])
+        else:
+            resolved.setdefault(name, f)
+    for name, f in sorted(resolved.items()):
         chk.guard('who-may-construct', name, lambda f=f: audit(chk, f))
 
 
